@@ -274,7 +274,20 @@ fn check_large(ctx: &mut Ctx) {
             };
             docs.push(format!("{{\"k\":\"{}\",\"u\":{},\"n\":{},\"i\":{}}}", g, u, r.range(-1000, 1000), i));
         }
-        let by = if r.chance(70) { " by k" } else { "" };
+        // one case in five groups by integers at the edge of the i64 range together with the double
+        // 2^63 (and neighbours of 2^53): values that an order-based or float-based notion of "same
+        // key" would merge, and which one is merged would depend on the arrival order
+        if r.chance(20) {
+            let edge = ["9223372036854775807", "9223372036854775806", "9223372036854775808", "9223372036854775296", "9007199254740993", "9007199254740992", "9007199254740994", "-9223372036854775808", "-9223372036854775807"];
+            // (not in the list: literals such as 9007199254740992.0 or -9223372036854775809, which are doubles with an
+            // integral value inside the i64 range and therefore ARE the corresponding integer key by the documented rule)
+            for d in docs.iter_mut() {
+                let id = r.pick(&edge);
+                *d = d.replacen("{\"k\":\"", &format!("{{\"k\":{},\"kk\":\"", id), 1);
+            }
+        }
+        let edge_keys = docs.first().map(|d| !d.starts_with("{\"k\":\"")).unwrap_or(false);
+        let by = if r.chance(70) || edge_keys { " by k" } else { "" };
         let q = format!("* | json | count as c, count_distinct(u) as d, sum(n) as s, min(n) as lo, max(n) as hi{}", by);
         let keys: Vec<String> = if by.is_empty() { vec![] } else { vec!["k".into()] };
         let join = |ds: &[String]| -> Vec<u8> { ds.iter().flat_map(|d| d.bytes().chain(std::iter::once(b'\n'))).collect() };
@@ -292,7 +305,12 @@ fn check_large(ctx: &mut Ctx) {
         // reference: distinct values and row counts per group, computed here
         let mut want: BTreeMap<String, (i64, std::collections::BTreeSet<String>)> = BTreeMap::new();
         for d in &docs {
-            let g = if by.is_empty() { "[]".to_string() } else { format!("{:?}", vec![canon::normalize(&J::Str(d[6..7].to_string()))]) };
+            let g = if by.is_empty() {
+                "[]".to_string()
+            } else {
+                let raw = d[5..].split(|c| c == ',').next().unwrap_or("null");
+                format!("{:?}", vec![canon::normalize(&canon::parse(raw).unwrap_or(J::Null))])
+            };
             let u = d.split("\"u\":").nth(1).unwrap().split(",\"n\"").next().unwrap().to_string();
             let e = want.entry(g).or_default();
             e.0 += 1;
